@@ -675,64 +675,115 @@ pub fn all_families(cfg: &FamCfg, sink: &mut Sink) {
         }
     }
 
-    // ---- loops: build and drop a list n times through a recursive definition (heap reuse) ------
+    // ---- loops: build and drop structures n times through a recursive definition (heap reuse) --
     for n in if cfg.thorough { vec![1i64, 2, 5, 17] } else { vec![1, 3] } {
-        for shape in 0..3 {
-            sink.offer(|| {
-                // loop(i, acc): if i == 0 exit acc else { build; consume; loop(i-1, acc') }
-                let params = vec![param("i", 1), param("acc", 2)];
-                let b = Bld::new(params.clone(), 100);
-                let body = b.ifc(IfSort::Equal, 1, None, |zero, mut br| {
-                    if zero {
-                        br.exit(2)
-                    } else {
-                        let one = br.lit(1);
-                        let i2 = br.op(1, BinOp::Sub, one);
-                        let nil = br.let_(t, "List", "Nil", &[]);
-                        let x1 = br.lit(3);
-                        let c1 = br.let_(t, "List", "Cons", &[x1, nil]);
-                        let x2 = br.lit(4);
-                        let c2 = br.let_(t, "List", "Cons", &[x2, c1]);
-                        match shape {
-                            0 => {
-                                // drop the list unread
-                                let acc2 = br.op(2, BinOp::Sum, i2);
-                                br.call("loop", &[i2, acc2])
-                            }
-                            1 => {
-                                // destruct the head uniquely
-                                br.switch(t, c2, |tag, mut sb, fs| {
-                                    if tag == "Nil" {
-                                        sb.call("loop", &[i2, 2])
-                                    } else {
-                                        let acc2 = sb.op(2, BinOp::Sum, fs[0]);
-                                        sb.call("loop", &[i2, acc2])
-                                    }
-                                })
-                            }
-                            _ => {
-                                // share, destruct one copy, drop the other
-                                let mut order = br.ids();
-                                order.push(c2);
-                                let ids = br.arrange(&order);
-                                let dup = *ids.last().unwrap();
-                                br.switch(t, dup, |tag, mut sb, fs| {
-                                    if tag == "Nil" {
-                                        sb.call("loop", &[i2, 2])
-                                    } else {
-                                        let acc2 = sb.op(2, BinOp::Sum, fs[0]);
-                                        sb.call("loop", &[i2, acc2])
-                                    }
-                                })
-                            }
-                        }
-                    }
-                });
-                let lp = def("loop", params, body);
-                let mb = Bld::new(vec![param("p0", 1), param("p1", 2)], 100);
-                let main = mb.call("loop", &[1, 2]);
-                case(format!("loop/n{n}/shape{shape}"), t, main, vec![lp], 2, vec![n, 0], false)
-            });
+        for shape in 0..LOOP_SHAPES {
+            sink.offer(|| loop_case(t, shape, n));
         }
     }
+}
+
+pub const LOOP_SHAPES: usize = 6;
+
+/// `loop(i, acc)`: if i == 0 exit acc else { build a structure; use/drop it; loop(i-1, acc') }.
+pub fn loop_case(t: &[TypeDeclaration], shape: usize, n: i64) -> AxCase {
+    let params = vec![param("i", 1), param("acc", 2)];
+    let b = Bld::new(params.clone(), 100);
+    let body = b.ifc(IfSort::Equal, 1, None, |zero, mut br| {
+        if zero {
+            br.exit(2)
+        } else {
+            let one = br.lit(1);
+            let i2 = br.op(1, BinOp::Sub, one);
+            let nil = br.let_(t, "List", "Nil", &[]);
+            let x1 = br.lit(3);
+            let c1 = br.let_(t, "List", "Cons", &[x1, nil]);
+            let x2 = br.lit(4);
+            let c2 = br.let_(t, "List", "Cons", &[x2, c1]);
+            match shape {
+                0 => {
+                    // drop the list unread
+                    let acc2 = br.op(2, BinOp::Sum, i2);
+                    br.call("loop", &[i2, acc2])
+                }
+                1 => {
+                    // destruct the head uniquely, drop the tail
+                    br.switch(t, c2, |tag, mut sb, fs| {
+                        if tag == "Nil" {
+                            sb.call("loop", &[i2, 2])
+                        } else {
+                            let acc2 = sb.op(2, BinOp::Sum, fs[0]);
+                            sb.call("loop", &[i2, acc2])
+                        }
+                    })
+                }
+                2 => {
+                    // share, destruct one copy, drop the other
+                    let mut order = br.ids();
+                    order.push(c2);
+                    let ids = br.arrange(&order);
+                    let dup = *ids.last().unwrap();
+                    br.switch(t, dup, |tag, mut sb, fs| {
+                        if tag == "Nil" {
+                            sb.call("loop", &[i2, 2])
+                        } else {
+                            let acc2 = sb.op(2, BinOp::Sum, fs[0]);
+                            sb.call("loop", &[i2, acc2])
+                        }
+                    })
+                }
+                3 => {
+                    // a closure capturing the list and two integers, invoked once
+                    let y = br.lit(9);
+                    let f = br.create(t, "Fun", &[c2, y], |_, mut m, ps, es| {
+                        let r = m.op(ps[0], BinOp::Sum, es[1]);
+                        m.invoke(t, ps[1], "Ret", &[r])
+                    });
+                    let k = br.create(t, "_Cont", &[i2, 2], |_, mut m, ps, es| {
+                        let acc2 = m.op(es[1], BinOp::Sum, ps[0]);
+                        m.call("loop", &[es[0], acc2])
+                    });
+                    let arg = br.lit(1);
+                    br.invoke(t, f, "ap", &[arg, k])
+                }
+                4 => {
+                    // a tree with two object children and a 5-field object (two blocks), dropped
+                    let l1 = br.let_(t, "Node", "Leaf", &[]);
+                    let v1 = br.lit(1);
+                    let l2 = br.let_(t, "Node", "Leaf", &[]);
+                    let n1 = br.let_(t, "Node", "Fork", &[l1, v1, l2]);
+                    let v2 = br.lit(2);
+                    let l3 = br.let_(t, "Node", "Leaf", &[]);
+                    let _n2 = br.let_(t, "Node", "Fork", &[n1, v2, l3]);
+                    let a = br.lit(1);
+                    let xx = br.lit(2);
+                    let p = br.let_(t, "Box", "B", &[xx]);
+                    let c = br.lit(3);
+                    let yy = br.lit(4);
+                    let q = br.let_(t, "Box", "B", &[yy]);
+                    let e = br.lit(5);
+                    let _m = br.let_(t, "Mix5", "M5", &[a, p, c, q, e]);
+                    let acc2 = br.op(2, BinOp::Sum, i2);
+                    br.call("loop", &[i2, acc2])
+                }
+                _ => {
+                    // an 8-field record (three blocks) read back uniquely
+                    let mut fs = Vec::new();
+                    for f in 0..8 {
+                        fs.push(br.lit(f));
+                    }
+                    let r = br.let_(t, "R8", "K8", &fs);
+                    br.switch(t, r, |_, mut sb, fs| {
+                        let acc2 = sb.op(2, BinOp::Sum, fs[7]);
+                        sb.call("loop", &[i2, acc2])
+                    })
+                }
+            }
+        }
+    });
+    let lp = def("loop", params, body);
+    let mb = Bld::new(vec![param("p0", 1), param("p1", 2)], 100);
+    let main = mb.call("loop", &[1, 2]);
+    let params2: Vec<ContextBinding> = (0..2).map(|i| param(&format!("p{i}"), 1 + i)).collect();
+    AxCase { name: format!("loop/n{n}/shape{shape}"), prog: prog(vec![def("main", params2, main), lp], t.to_vec()), args: vec![n, 0], uses_print: false }
 }
